@@ -146,7 +146,8 @@ func refusesGzip(acceptEncoding string) bool {
 			continue
 		}
 		for _, p := range params[1:] {
-			p = strings.TrimSpace(p)
+			// the parameter name is case-insensitive: "gzip;Q=0" refuses as well
+			p = strings.ToLower(strings.TrimSpace(p))
 			if strings.HasPrefix(p, "q=") && strings.Trim(p[len("q="):], "0.") == "" {
 				return true
 			}
